@@ -207,3 +207,16 @@ package dotgit
 //gvc:  sink Close requires idle: !spec_handle_pinned(recv)
 //gvc:  kf F30 idle: spec_handle_pinned(recv)
 //gvc:end
+
+// genObjectList (ExclusiveAccess cache of loose object ids; property C18): a
+// listing that failed leaves no list behind. Otherwise the partial list would
+// pass for the complete one from then on (genObjectList returns early once
+// objectMap is set) and objects that were written successfully would be
+// reported as missing.
+//gvc:func (*DotGit).genObjectList
+//gvc:  props C18
+//gvc:  theory int
+//gvc:  opt coarse
+//gvc:  opt frame args
+//gvc:  ensures clean: result != nil ==> d.objectMap == nil
+//gvc:end
